@@ -499,6 +499,26 @@ pub fn check_main(prop: &str, tier: &str) -> i32 {
         }
         known_lines.push(format!("KNOWN-FINDING: property={prop} id={id} occurrences={cnt} {} -- e.g. {what}", entry.what));
     }
+    // Parse stacks far deeper than any generated scenario reaches: the real parser alone (unit
+    // actions), an error at end of input under n openers, in a guarded child on stacks of
+    // realistic size (8 MB main thread, 2 MB spawned thread).
+    let mut deep_probes = 0u64;
+    if prop == "C07" {
+        let probes: &[(usize, usize)] = if tier == "thorough" { &[(150_000, 2), (400_000, 8), (3_000_000, 8)] } else { &[(150_000, 2), (400_000, 8)] };
+        for (n, mb) in probes {
+            deep_probes += 1;
+            let st = run_guarded(&exe, &["r-deep", &n.to_string(), &mb.to_string()], 120.0);
+            if st != Some(0) {
+                n_viol += 1;
+                exit = EXIT_VIOLATION;
+                let replay = json!({"engine": "R-deep", "property": "C07", "class": "C07-a-abort-under-deep-stack", "n": n, "stack_mb": mb,
+                    "detail": format!("an error at end of input under a parse stack {n} entries deep (`R0: 't0' R0 | 't1';`, {n} x t0): the parser process did not return (child status {st:?}) on a {mb} MB stack")});
+                let name = format!("C07-C07-a-abort-under-deep-stack-{n}-{seed}.json");
+                let path = write_replay(&vdir, &name, &replay).unwrap();
+                viol_lines.push(format!("VIOLATION property=C07 replay={} class=C07-a-abort-under-deep-stack occurrences=1 :: {}", path.display(), replay["detail"].as_str().unwrap()));
+            }
+        }
+    }
     let mut other_props = 0u64;
     for (p, class, cnt, sample) in groups {
         if p != prop {
@@ -588,6 +608,9 @@ pub fn check_main(prop: &str, tier: &str) -> i32 {
     extra.insert("probes_and_faults_fired".into(), json!(total.probes));
     extra.insert("distinct_states".into(), json!({"count": nstates, "measure": "distinct (grammar digest, error state, error lexeme index, lexemes remaining, clock-policy class, outcome class, number of sequences)"}));
     extra.insert("worker_restarts".into(), json!(worker_restarts));
+    if deep_probes > 0 {
+        extra.insert("deep_stack_probes_run_in_guarded_children".into(), json!(deep_probes));
+    }
     extra.insert("findings_belonging_to_other_properties".into(), json!(other_props));
     extra.insert("known_findings_matched".into(), json!(known_for_prop.iter().map(|(k, v)| (k.clone(), v.0)).collect::<BTreeMap<_, _>>()));
     extra.insert("event_log_hash".into(), json!(format!("{:016x}", total.loghash)));
